@@ -5,7 +5,7 @@
    run and the specification appear in the statements. *)
 From Coq Require Import List ZArith Bool Arith Lia.
 From SC Require Import Base.Res Base.PyList Inst.Heap Inst.ClassTable Inst.Model Inst.Canon
-  Inst.Abs Inst.SpecHelpers Inst.ElemProofs Inst.Framed Inst.RefineProofs Inst.CopyProofs Inst.ElemRefine
+  Inst.Abs Inst.SpecHelpers Inst.ElemProofs Inst.Framed Inst.RefineProofs Inst.CopyProofs Inst.ElemRefineDep Inst.ElemRefine
   Inst.ElemRefine2 Inst.ElemRefine3 Inst.ElemRefine4 Inst.ElemRefine5 Inst.ElemRefine6 Inst.ElemRefine7 Inst.ElemRefine8 Inst.ElemRefine9 Inst.ElemRefine10 Inst.ElemRefine11.
 Import ListNotations.
 Open Scope nat_scope.
@@ -28,15 +28,6 @@ Proof.
   intro Hin. apply negb_true_iff in H1.
   assert (existsb (Nat.eqb x) t = true) by (apply existsb_exists; exists x; split; auto; apply Nat.eqb_refl).
   congruence.
-Qed.
-
-Definition no_invalb (k : cls) : bool :=
-  forallb (fun sp => match a_inv_by sp with [] => true | _ => false end) (c_attrs k).
-
-Lemma no_invalb_sound k : no_invalb k = true -> no_inval k.
-Proof.
-  unfold no_invalb, no_inval. rewrite forallb_forall. intros H sp Hsp. specialize (H sp Hsp).
-  destruct (a_inv_by sp); [reflexivity|discriminate].
 Qed.
 
 Definition flat_valb (h : list obj) (x : val) : bool :=
@@ -96,7 +87,7 @@ Definition attr_spec_of (ct : ctable) (s : state) (l : loc) (a : aid) : option a
   | _ => None
   end.
 
-(* flat receiver of an unfrozen class without invalidated_by, whose attribute a is declared
+(* flat receiver of an unfrozen class in which nothing is invalidated by a, whose attribute a is declared
    as a list / dict / set and holds, unshared, a container of scalars of that family *)
 Definition elem_guard (ct : ctable) (s : state) (l : loc) (a : aid) (kd : ckind) : bool :=
   match nth_error (heap s) l with
@@ -107,7 +98,7 @@ Definition elem_guard (ct : ctable) (s : state) (l : loc) (a : aid) (kd : ckind)
           | Some sp, Some (VRef lc) =>
               match nth_error (heap s) lc with
               | Some o =>
-                  nodupb (map fst d) && negb (c_frozen k) && no_invalb k
+                  nodupb (map fst d) && negb (c_frozen k) && no_depb k a
                   && (ty_depth (a_ty sp) <=? FUEL) && flat_fieldsb (heap s) d && unsharedb a lc d
                   && scalar_obj o && kind_ok kd (a_ty sp) o
               | None => false
@@ -137,7 +128,7 @@ Record guard_facts (ct : ctable) (s : state) (l : loc) (a : aid) (c : cid) (d : 
   gf_a : lookup_attr k a = Some sp;
   gf_d : NoDup (map fst d);
   gf_fz : c_frozen k = false;
-  gf_ni : no_inval k;
+  gf_ni : no_dep k a;
   gf_dep : ty_depth (a_ty sp) <= FUEL;
   gf_fld : assoc a d = Some (VRef lc);
   gf_lc : nth_error (heap s) lc = Some o;
@@ -160,7 +151,7 @@ Proof.
   constructor; auto.
   - now apply nodupb_sound.
   - now apply negb_true_iff.
-  - now apply no_invalb_sound.
+  - now apply no_depb_sound.
   - now apply Nat.leb_le.
   - now apply flat_fieldsb_sound.
   - now apply unsharedb_sound.
@@ -219,7 +210,7 @@ Section Guarded.
   Proof.
     intros H Hp Hv Hi. list_facts H c d k sp lc xs ity G Hty. destruct G.
     destruct (plain_items_facts sp Hsp Hp) as [P1 P2]. rewrite Hty in P2. cbn [item_type] in P2.
-    exact (with_item_list_inplace_refines ct h0 l a c d k sp s lc xs ity gf_l0 gf_c0 gf_a0 gf_d0 gf_fz0 gf_ni0 Hty
+    exact (with_item_list_inplace_refines2 ct h0 l a c d k sp s lc xs ity gf_l0 gf_c0 gf_a0 gf_d0 gf_fz0 gf_ni0 Hty
              P1 P2 (depth_list sp ity Hty gf_dep0) gf_fld0 gf_lc0 gf_o0 gf_flat0 gf_sh0 idx v ins Hv Hi).
   Qed.
 
@@ -343,7 +334,7 @@ End Guarded.
 (* ------------------------------------------------------------------ *)
 (** * The guard of the copy-on-write calls *)
 
-(* flat receiver, not being initialised, of a class (frozen or not) without invalidated_by,
+(* flat receiver, not being initialised, of a class (frozen or not) in which nothing is invalidated by a,
    without do_not_copy and without __post_copy__ hook, whose attribute a is declared as a
    list / dict / set and holds a container of scalars of that family (sharing allowed) *)
 Definition copy_guard (ct : ctable) (s : state) (l : loc) (a : aid) (kd : ckind) : bool :=
@@ -355,7 +346,7 @@ Definition copy_guard (ct : ctable) (s : state) (l : loc) (a : aid) (kd : ckind)
           | Some sp, Some (VRef lc) =>
               match nth_error (heap s) lc with
               | Some o =>
-                  nodupb (map fst d) && negb (c_dnc k) && no_invalb k
+                  nodupb (map fst d) && negb (c_dnc k) && no_depb k a
                   && (ty_depth (a_ty sp) <=? FUEL) && flat_fieldsb (heap s) d
                   && match c_post_copy k with None => true | Some _ => false end
                   && match assoc A_INITIALIZING d with None => true | Some _ => false end
@@ -378,7 +369,7 @@ Record copy_facts (ct : ctable) (s : state) (l : loc) (a : aid) (c : cid) (d : l
   cf_d : NoDup (map fst d);
   cf_dnc : c_dnc k = false;
   cf_pc : c_post_copy k = None;
-  cf_ni : no_inval k;
+  cf_ni : no_dep k a;
   cf_dep : ty_depth (a_ty sp) <= FUEL;
   cf_fld : assoc a d = Some (VRef lc);
   cf_lc : nth_error (heap s) lc = Some o;
@@ -403,7 +394,7 @@ Proof.
   - now apply nodupb_sound.
   - now apply negb_true_iff.
   - destruct (c_post_copy k); [discriminate|reflexivity].
-  - now apply no_invalb_sound.
+  - now apply no_depb_sound.
   - now apply Nat.leb_le.
   - now apply flat_fieldsb_sound.
   - destruct (assoc A_INITIALIZING d); [discriminate|reflexivity].
@@ -545,8 +536,8 @@ Definition kind_ty (kd : ckind) (t : ty) : bool :=
   | _, _ => false
   end.
 
-(* flat receiver of an unfrozen class without invalidated_by whose attribute a is declared as a
-   list / dict / set and holds NOTHING: no entry in the instance, no class-level default *)
+(* flat receiver of an unfrozen class in which nothing is invalidated by a, whose attribute a is
+   declared as a list / dict / set and holds NOTHING: no entry in the instance, no class-level default *)
 Definition missing_guard (ct : ctable) (s : state) (l : loc) (a : aid) (kd : ckind) : bool :=
   match nth_error (heap s) l with
   | Some (OInst c d) =>
@@ -554,7 +545,7 @@ Definition missing_guard (ct : ctable) (s : state) (l : loc) (a : aid) (kd : cki
       | Some k =>
           match lookup_attr k a, assoc a d, assoc a (c_overrides k) with
           | Some sp, None, None =>
-              nodupb (map fst d) && negb (c_frozen k) && no_invalb k
+              nodupb (map fst d) && negb (c_frozen k) && no_depb k a
               && (ty_depth (a_ty sp) <=? FUEL) && flat_fieldsb (heap s) d
               && match a_default sp with VMissing => true | _ => false end
               && kind_ty kd (a_ty sp)
@@ -574,7 +565,7 @@ Section GuardedMissing.
   Lemma missing_guard_sound kd : missing_guard ct s l a kd = true ->
     exists c d k sp,
       nth_error (heap s) l = Some (OInst c d) /\ lookup_cls ct c = Some k /\ lookup_attr k a = Some sp /\
-      NoDup (map fst d) /\ c_frozen k = false /\ no_inval k /\ ty_depth (a_ty sp) <= FUEL /\
+      NoDup (map fst d) /\ c_frozen k = false /\ no_dep k a /\ ty_depth (a_ty sp) <= FUEL /\
       assoc a d = None /\ assoc a (c_overrides k) = None /\ a_default sp = VMissing /\
       flat_fields (heap s) d /\ kind_ty kd (a_ty sp) = true /\ attr_spec_of ct s l a = Some sp.
   Proof.
@@ -588,7 +579,7 @@ Section GuardedMissing.
     exists c, d, k, sp. repeat (split; [auto|]); auto.
     - now apply nodupb_sound.
     - now apply negb_true_iff.
-    - now apply no_invalb_sound.
+    - now apply no_depb_sound.
     - now apply Nat.leb_le.
     - destruct (a_default sp); try discriminate; reflexivity.
     - now apply flat_fieldsb_sound.
@@ -1089,3 +1080,9 @@ Definition ex_list_sp_p : attr_spec := mkattr 1 (TList TInt) VMissing None 0 tru
 Definition ex_set_sp_p : attr_spec := mkattr 3 (TSet TInt) VMissing None 0 true false None (Some (FAddInt 10)) [].
 Definition ex_cls_prep : cls := mkcls 0 [ex_list_sp_p; ex_dict_sp; ex_set_sp_p] false false None [0] 0 [] None None.
 Definition ex_ct_prep : ctable := [ex_cls_prep].
+
+(* the same class with a fourth attribute n : int that is invalidated by m: editing xs or t is
+   within the guard, editing m is not *)
+Definition ex_dep_sp : attr_spec := mkattr 4 TInt (VInt 0) None 0 true false None None [2].
+Definition ex_cls_dep : cls := mkcls 0 [ex_list_sp; ex_dict_sp; ex_set_sp; ex_dep_sp] false false None [0] 0 [] None None.
+Definition ex_ct_dep : ctable := [ex_cls_dep].
